@@ -17,7 +17,7 @@ import GMGProofs.Lemmas.Concrete5
 set_option linter.unusedSectionVars false
 set_option linter.unusedVariables false
 namespace Concrete
-open Stencil Scalar Cycle SparseLU
+open Stencil Scalar MGCycle SparseLU
 
 section AnyField
 variable {K : Type} [_root_.Field K]
